@@ -124,6 +124,8 @@ type FnCtx struct {
 	escaped map[string]bool
 	tainted map[string]bool
 	usedCallAssert map[string]bool
+	paramObj map[string]types.Object // contract parameter name -> the parameter's object
+	wmDeclared map[string]bool // loop watermarks declared so far in this run
 	devirtUsed map[string]string // function-valued fields resolved through a fieldis declaration
 	retLocal func(string) (Val, bool) // named locals at the return being checked
 	missingCall string // set when a clause asks for the result of a call site that does not exist
@@ -214,6 +216,7 @@ func (fc *FnCtx) reset(dry bool) {
 	fc.callGuard = map[string]*smt.Term{}
 	fc.escaped = map[string]bool{}
 	fc.tainted = map[string]bool{}
+	fc.wmDeclared = map[string]bool{}
 	if dry {
 		fc.written = map[*ssa.BasicBlock]map[string]bool{}
 		fc.writtenRefs = map[*ssa.BasicBlock]map[string]map[string]*smt.Term{}
@@ -1021,11 +1024,13 @@ func (fc *FnCtx) run() {
 	st0 := &State{H: map[string]*smt.Term{}}
 	// parameters
 	names := fc.paramNames()
+	fc.paramObj = map[string]types.Object{}
 	for i, p := range fn.Params {
 		v := fc.freshVal("p_"+p.Name(), p.Type())
 		fc.vals[p] = v
 		if i < len(names) {
 			fc.params[names[i]] = v
+			fc.paramObj[names[i]] = p.Object()
 		}
 		fc.params[p.Name()] = v
 	}
@@ -1037,7 +1042,10 @@ func (fc *FnCtx) run() {
 			}
 		}
 		fc.vals[fv] = v
-		fc.params[fv.Name()] = v
+		if _, taken := fc.params[fv.Name()]; !taken {
+			// a parameter (by its contract name) wins over a captured variable of the same name
+			fc.params[fv.Name()] = v
+		}
 	}
 	// every heap map the function touches exists from the start (known from the dry run),
 	// so that objects allocated later can be given all their fields at allocation
